@@ -7,9 +7,15 @@
 
 """Util functions to handle random seeds."""
 
+import threading
 from contextlib import contextmanager
 
 import numpy as np
+
+# The (legacy) global random generator of NumPy is shared by all the threads of a process.
+# Only one thread at a time can be inside a seeded section (e.g. with dask's threaded scheduler),
+# otherwise the threads would draw from (and restore) each other's random state.
+_SEED_LOCK = threading.RLock()
 
 
 @contextmanager
@@ -24,12 +30,13 @@ def set_random_seed(seed: int | None = None):
         value = np.random.random()
     """
     if seed is not None:
-        previous_state = np.random.get_state()
-        try:
-            np.random.seed(seed)
-            yield
-        finally:
-            np.random.set_state(previous_state)
+        with _SEED_LOCK:
+            previous_state = np.random.get_state()
+            try:
+                np.random.seed(seed)
+                yield
+            finally:
+                np.random.set_state(previous_state)
     else:
         # Do nothing
         yield
